@@ -2,6 +2,7 @@
 (fresh interpreter; pure python or rebuilt extension, see common.run_impl)."""
 import itertools
 import json
+import re
 import sys
 import traceback
 import warnings
@@ -46,9 +47,29 @@ def run_pipe(case):
     from tenpy.linalg.charges import LegPipe, LegCharge
     ci = mk_chinfo(case['mods'])
     legs = [mk_leg(ci, s) for s in case['legs']]
-    p = LegPipe(legs, qconj=case['qconj'], sort=case['sort'], bunch=case['bunch'])
+    inner = None
+    orig = legs
+    if case.get('inner'):      # pipe of pipes: the first n legs are fused first, the resulting pipe is the first incoming leg
+        ic = case['inner']
+        inner = LegPipe(legs[:ic['n']], qconj=ic['qconj'], sort=ic['sort'], bunch=ic['bunch'])
+        legs = [inner] + legs[ic['n']:]
+    p = LegPipe(tuple(legs) if case.get('legs_tuple') else list(legs), qconj=case['qconj'], sort=case['sort'], bunch=case['bunch'])
     out = ops.pipe_desc(p)      # charges, slices, q_map, q_map_slices, flags, stored legs, map_incoming_flat on every tuple
     mif = out['mif']
+    if inner is not None:
+        out['inner'] = ops.pipe_desc(inner)
+        n_in = ic['n']
+        comp = []
+        for t in itertools.product(*[range(l.ind_len) for l in orig]):
+            try:
+                comp.append(int(p.map_incoming_flat([inner.map_incoming_flat(list(t[:n_in]))] + list(t[n_in:]))))
+            except Exception:
+                comp.append(None)
+        out['composed'] = comp
+        cj = p.conj()
+        out['conj_inner'] = {'is_pipe': isinstance(cj.legs[0], LegPipe), 'qconj': int(cj.legs[0].qconj),
+                             'legs_qconj': [int(l.qconj) for l in getattr(cj.legs[0], 'legs', [])]}
+    out['mif_forms'] = mif_forms(p, legs, mif)
     # every public method that returns a leg, applied to the pipe (found by reflection, see c06ops_impl.py)
     aux = {'extend_leg': legs[0], 'extend_int': 1}
     if case.get('table'):
@@ -87,6 +108,46 @@ def run_pipe(case):
     return out
 
 
+def mif_forms(p, legs, mif):
+    """map_incoming_flat with negative indices / tuple / ndarray arguments, and its rejections"""
+    probs = []
+    lens = [int(l.ind_len) for l in legs]
+    tuples = list(itertools.product(*[range(n) for n in lens]))
+    if tuples and None not in mif:
+        for j in sorted({0, len(tuples) // 2, len(tuples) - 1}):
+            t = list(tuples[j])
+            forms = {'negative indices': [x - n for x, n in zip(t, lens)], 'tuple': tuple(t), 'ndarray': np.array(t, dtype=np.intp),
+                     'mixed signs': [x - n if i % 2 else x for i, (x, n) in enumerate(zip(t, lens))]}
+            for name, arg in forms.items():
+                try:
+                    got = int(p.map_incoming_flat(arg))
+                except Exception as e:
+                    got = type(e).__name__
+                if got != mif[j]:
+                    probs.append('map_incoming_flat(%s) [%s] = %s, map_incoming_flat(%s) = %s' % (list(arg), name, got, t, mif[j]))
+        t = list(tuples[-1])
+        for l in range(len(lens)):
+            for bad in (lens[l], -lens[l] - 1):
+                t2 = list(t)
+                t2[l] = bad
+                try:
+                    got = int(p.map_incoming_flat(t2))
+                    probs.append('map_incoming_flat(%s) with ind_len %s returned %s instead of raising IndexError' % (t2, lens, got))
+                except IndexError:
+                    pass
+                except Exception as e:
+                    probs.append('map_incoming_flat(%s) with ind_len %s raised %s instead of IndexError' % (t2, lens, type(e).__name__))
+    for arg in ([0] * (len(lens) + 1), [0] * (len(lens) - 1)):
+        try:
+            got = p.map_incoming_flat(arg)
+            probs.append('map_incoming_flat(%s) on a pipe of %d legs returned %s instead of raising ValueError' % (arg, len(lens), got))
+        except ValueError:
+            pass
+        except Exception as e:
+            probs.append('map_incoming_flat(%s) on a pipe of %d legs raised %s instead of ValueError' % (arg, len(lens), type(e).__name__))
+    return probs
+
+
 def gq(leg, i):
     try:
         q, w = leg.get_qindex(i)
@@ -95,6 +156,107 @@ def gq(leg, i):
         return 'IndexError'
     except Exception as e:
         return type(e).__name__
+
+
+def _try(f, *a):
+    try:
+        return f(*a)
+    except ValueError:
+        return 'ValueError'
+    except Exception as e:
+        return type(e).__name__
+
+
+def leg_accessors(ci, l, case):
+    """the accessors / constructors / comparisons of LegCharge (raw results; judged in harness/c06.py: leg_oracle)"""
+    from tenpy.linalg.charges import LegCharge, ChargeInfo
+    acc = {}
+    nb = l.block_number
+    acc['get_slice'] = [[int(l.get_slice(q).start), int(l.get_slice(q).stop)] for q in range(nb)]
+    acc['get_charge'] = [[int(x) for x in l.get_charge(q)] for q in range(nb)]
+    acc['block_sizes'] = [int(x) for x in l.get_block_sizes()]
+    acc['flags'] = [bool(l.is_blocked()), bool(l.is_sorted()), bool(l.is_bunched())]
+    acc['charge_sectors'] = [[int(x) for x in c] for c in l.charge_sectors()]
+    qd = _try(l.to_qdict)
+    acc['to_qdict'] = qd if isinstance(qd, str) else sorted([[int(x) for x in k], int(v.start), int(v.stop)] for k, v in qd.items())
+    look = []
+    seen = set()
+    for q in range(nb):
+        c = tuple(int(x) for x in l.get_charge(q))
+        if c in seen:
+            continue
+        seen.add(c)
+        r = _try(l.get_qindex_of_charges, list(c))
+        look.append([list(c), r if isinstance(r, str) else int(r)])
+    absent = [7] * ci.qnumber
+    r = _try(l.get_qindex_of_charges, absent)
+    look.append([absent, r if isinstance(r, str) else int(r)])
+    acc['qindex_of_charges'] = look
+    # constructors
+    qf = l.to_qflat()
+    f = LegCharge.from_qflat(ci, qf.tolist() if case.get('mask') and case['mask'][0] else qf, l.qconj)
+    acc['from_qflat'] = {'blocks': leg_blocks(f), 'qconj': int(f.qconj), 'sane': sane(f)}
+    if ci.qnumber == 1:
+        f1 = LegCharge.from_qflat(ci, [int(x) for x in qf[:, 0]], l.qconj)      # documented: 1D qflat for a single charge
+        acc['from_qflat_1d'] = {'blocks': leg_blocks(f1), 'qconj': int(f1.qconj), 'sane': sane(f1)}
+    if not isinstance(qd, str) and nb > 0 and np.all(l.get_block_sizes() > 0):
+        f2 = _try(LegCharge.from_qdict, ci, qd, l.qconj)
+        acc['from_qdict'] = f2 if isinstance(f2, str) else {'blocks': leg_blocks(f2), 'qconj': int(f2.qconj), 'sane': sane(f2)}
+    f3 = LegCharge.from_trivial(l.ind_len, ci, l.qconj)
+    acc['from_trivial'] = {'blocks': leg_blocks(f3), 'qconj': int(f3.qconj), 'sane': sane(f3)}
+    f4 = LegCharge.from_trivial(l.ind_len)
+    acc['from_trivial_default'] = {'blocks': leg_blocks(f4), 'qconj': int(f4.qconj), 'sane': sane(f4), 'qnumber': int(f4.chinfo.qnumber)}
+    # comparisons: other block structure with the same charges on every index / other ChargeInfo
+    fine = LegCharge.from_qflat(ci, qf, l.qconj)
+    acc['eq'] = {'self': _try(lambda: bool(l == l)), 'copy': _try(lambda: bool(l == l.copy())),
+                 'rebuilt': _try(lambda: bool(l == LegCharge(ci, l.slices.copy(), l.charges.copy(), l.qconj))),
+                 'fine_blocks': _try(lambda: bool(l == fine)), 'ne_fine_blocks': _try(lambda: bool(l != fine)),
+                 'fine_same_structure': bool(np.array_equal(fine.slices, l.slices)),
+                 'longer': _try(lambda: bool(l == l.extend(1))),
+                 'doubled_blocks': _try(lambda: bool(l == LegCharge(ci, l.slices * 2, l.charges.copy(), l.qconj))),
+                 'test_equal_doubled_blocks': _try(lambda: l.test_equal(LegCharge(ci, l.slices * 2, l.charges.copy(), l.qconj)) or 'accepted'),
+                 'other_chinfo': _try(lambda: bool(l == LegCharge.from_trivial(l.ind_len, ChargeInfo([5, 5, 5]), l.qconj))),
+                 'test_equal_other_chinfo': _try(lambda: l.test_equal(LegCharge.from_trivial(l.ind_len, ChargeInfo([5, 5, 5]), l.qconj))),
+                 'test_equal_longer': _try(lambda: l.test_equal(l.extend(1))),
+                 'test_contractible_longer': _try(lambda: l.test_contractible(l.extend(1).conj()))}
+    # second application: sorting / bunching the sorted / bunched result changes nothing
+    again = {}
+    for b in (True, False):
+        _, s1 = l.sort(bunch=b)
+        perm2, s2 = s1.sort(bunch=b)
+        again['sort_%d' % b] = {'perm': [int(x) for x in perm2], 'same': bool(leg_blocks(s2) == leg_blocks(s1) and s2.qconj == s1.qconj)}
+    _, b1 = l.bunch()
+    idx2, b2 = b1.bunch()
+    again['bunch'] = {'idx': [int(x) for x in idx2], 'same': bool(leg_blocks(b2) == leg_blocks(b1)), 'n': int(b1.block_number)}
+    acc['again'] = again
+    if case.get('table'):      # once per process: malformed objects / arguments have to be rejected (TENPY_OPTIMIZE=0)
+        rej = {}
+
+        def broken(**kw):
+            x = LegCharge(ci, np.array([0, 1, 3]), np.zeros((2, ci.qnumber), dtype=np.int64), 1)
+            for k, v in kw.items():
+                setattr(x, k, v)
+            return _try(x.test_sanity) or 'accepted'
+        rej['test_sanity: slices too long'] = broken(slices=np.array([0, 1, 2, 3]))
+        rej['test_sanity: slices start at 1'] = broken(slices=np.array([1, 2, 3]))
+        rej['test_sanity: charges with a column too many'] = broken(charges=np.zeros((2, ci.qnumber + 1), dtype=np.int64))
+        z2 = LegCharge(ChargeInfo([2]), np.array([0, 1, 3]), np.zeros((2, 1), dtype=np.int64), 1)
+        z2.charges = np.array([[2], [0]], dtype=np.int64)
+        rej['test_sanity: Z_2 charge 2 (not reduced)'] = _try(z2.test_sanity) or 'accepted'
+        rej['test_sanity: qconj 0'] = broken(qconj=0)
+        rej['test_sanity: sorted flag on unsorted charges'] = 'skipped' if ci.qnumber == 0 else _try(
+            lambda: LegCharge.test_sanity(_with_flag(LegCharge(ci, np.array([0, 1, 2]), ci.make_valid(np.array([[1] * ci.qnumber, [0] * ci.qnumber])), 1), 'sorted')) or 'accepted')
+        rej['test_sanity: bunched flag on equal neighbours'] = _try(
+            lambda: LegCharge.test_sanity(_with_flag(LegCharge(ci, np.array([0, 1, 2]), np.zeros((2, ci.qnumber), dtype=np.int64), 1), 'bunched')) or 'accepted')
+        rej['from_qflat: second dimension != qnumber'] = _try(lambda: LegCharge.from_qflat(ci, np.zeros((2, ci.qnumber + 1), dtype=np.int64)) and 'accepted')
+        rej['from_qdict: slices with a gap'] = _try(lambda: LegCharge.from_qdict(ci, {(0,) * ci.qnumber: slice(0, 1), (1,) * ci.qnumber: slice(2, 3)}) and 'accepted')
+        acc['rejects'] = rej
+    return acc
+
+
+def _with_flag(leg, flag):
+    setattr(leg, flag, True)
+    return leg
 
 
 def run_leg(case):
@@ -153,6 +315,7 @@ def run_leg(case):
     t('contr_self_flip', l.test_contractible, fl)
     out['rel'] = rel
     out['get_qindex'] = [[i, gq(l, i)] for i in range(-n - 2, n + 3)]
+    out['acc'] = leg_accessors(ci, l, case)
     # every public method that returns a leg, applied to the plain leg (same machinery as for pipes)
     aux = {'mask': case['mask'], 'extend_int': ex if isinstance(ex, int) else 1,
            'extend_leg': None if isinstance(ex, int) else mk_leg(ci, ex)}
@@ -230,31 +393,83 @@ def legs_identical(l1, l2):
             and l1.chinfo == l2.chinfo)
 
 
+def split_dense(dense, ax, pipe):
+    """dense oracle for splitting ONE pipe at axis ax: entry (.., t_1..t_n, ..) <- (.., map_incoming_flat(t), ..)"""
+    sub = [int(l.ind_len) for l in pipe.legs]
+    mif = np.array([int(pipe.map_incoming_flat(list(t))) for t in itertools.product(*[range(x) for x in sub])], dtype=np.intp)
+    r = np.take(dense, mif, axis=ax)
+    return r.reshape(dense.shape[:ax] + tuple(sub) + dense.shape[ax + 1:])
+
+
+def pipes_equal(p1, p2):
+    from tenpy.linalg.charges import LegPipe
+    if isinstance(p1, LegPipe) != isinstance(p2, LegPipe) or not legs_identical(p1, p2):
+        return False
+    if not isinstance(p1, LegPipe):
+        return True
+    return (np.array_equal(p1.q_map, p2.q_map) and np.array_equal(p1.q_map_slices, p2.q_map_slices) and p1.nlegs == p2.nlegs
+            and all(pipes_equal(x, y) for x, y in zip(p1.legs, p2.legs)))
+
+
+def must_raise(probs, what, f, kinds=(ValueError,)):
+    """an invalid call has to be rejected (and not answered with a wrong tensor)"""
+    try:
+        f()
+    except kinds:
+        return
+    except Exception as e:
+        if kinds == (Exception,):
+            return
+        probs.append(('reject:type', '%s raised %s instead of %s' % (what, type(e).__name__, '/'.join(k.__name__ for k in kinds))))
+        return
+    probs.append(('reject:accepted', '%s was accepted' % what))
+
+
 def run_array(case):
     import tenpy.linalg.np_conserved as npc
-    from tenpy.linalg.charges import LegPipe
+    from tenpy.linalg.charges import LegPipe, LegCharge
     rng = np.random.default_rng(case['seed'])
     ci = mk_chinfo(case['mods'])
     legs = [mk_leg(ci, s) for s in case['legs']]
     rank = len(legs)
+    tags = []
     # total charge of a random block tuple, so that something is stored
     qi = case['qtotal_block']
     qtotal = ci.make_valid(np.sum([l.get_charge(q % l.block_number) for l, q in zip(legs, qi)], axis=0)) if ci.qnumber else None
+    dtype = {'float': np.float64, 'complex': np.complex128, 'int': np.int64}[case.get('dtype', 'float')]
 
     def func(shape):
-        x = rng.integers(1, 50, size=shape).astype(np.float64)
-        if case.get('complex'):
+        x = rng.integers(1, 50, size=shape)
+        if dtype is np.complex128:
             return x + 1j * rng.integers(1, 50, size=shape)
-        return x
+        return x.astype(dtype)
     labels = case['labels']
-    a = npc.Array.from_func(func, legs, dtype=np.complex128 if case.get('complex') else np.float64, qtotal=qtotal,
-                            labels=labels)
-    if case.get('drop_blocks') and a.stored_blocks > 1:
-        keep = [i for i in range(a.stored_blocks) if (i + case['drop_blocks']) % 3 != 0]
+    pt = case.get('pre_transpose')
+    if pt:      # blocks become non-contiguous views
+        a0 = npc.Array.from_func(func, [legs[i] for i in pt], dtype=dtype, qtotal=qtotal, labels=[labels[i] for i in pt])
+        inv = [pt.index(i) for i in range(rank)]
+        a = a0.transpose(inv)
+    else:
+        a = npc.Array.from_func(func, legs, dtype=dtype, qtotal=qtotal, labels=labels)
+    bl_opt = case.get('blocks', 'all')
+    nst = a.stored_blocks
+    if bl_opt == 'some-missing' and nst > 1:
+        keep = [i for i in range(nst) if (i + case['drop_blocks']) % 3 != 0]
+    elif bl_opt == 'one' and nst >= 1:
+        keep = [case['drop_blocks'] % nst]
+    elif bl_opt == 'none':
+        keep = []
+    else:
+        keep = list(range(nst))
+    if case.get('shuffle') and len(keep) > 1:
+        keep = [keep[i] for i in rng.permutation(len(keep))]
+        a._qdata_sorted = False
+    if keep != list(range(nst)):
         a._data = [a._data[i] for i in keep]
-        a._qdata = a._qdata[keep]
+        a._qdata = a._qdata[keep] if keep else np.empty((0, rank), dtype=np.intp)
     a.test_sanity()
     ad = a.to_ndarray()
+    in_legs = list(a.legs)
     probs = []   # (key, text)
     olabels = [(l if l is not None else '?%d' % i) for i, l in enumerate(labels)]
     out = {'stored_blocks': int(a.stored_blocks), 'size': int(ad.size)}
@@ -269,38 +484,99 @@ def run_array(case):
         if got != exp:
             probs.append(('get_leg_index:rank' if lab == rank else 'get_leg_index',
                           'get_leg_index(%d) on a rank-%d array gave %r, expected %r' % (lab, rank, got, exp)))
-    # ---- combine_legs
+    # ---- combine_legs: the call in the requested form
     groups = case['combine']
+    by = case['by']
+    use = [[olabels[i] if b else i for i, b in zip(g, bg)] for g, bg in zip(groups, by)]
+    form = case.get('cl_form', 'nested-list')
+    flat = form.startswith('flat')
+
+    def mk_cl_arg():
+        if form == 'nested-list':
+            return [list(g) for g in use]
+        elif form == 'nested-tuple':
+            return tuple(tuple(g) for g in use)
+        elif form == 'flat-list':
+            return list(use[0])
+        elif form == 'flat-tuple':
+            return tuple(use[0])
+        elif form == 'ndarray':
+            return np.array(use, dtype=np.intp)
+        return (list(g) for g in use)
+    cl_arg = mk_cl_arg()
     kw = {}
-    if case.get('new_axes') is not None:
-        kw['new_axes'] = list(case['new_axes'])
-    if case.get('qconj') is not None:
-        kw['qconj'] = case['qconj']
-    use = [[olabels[i] if (labels[i] is not None and case.get('by_label')) else i for i in g] for g in groups]
-    if case.get('given_pipes'):
-        pipes = []
-        for g in groups:
+    na = case.get('new_axes')
+    na_form = case.get('na_form', 'none' if na is None else 'list')
+    na_arg = None
+    if na is not None:
+        na_arg = {'list': list, 'tuple': tuple, 'ndarray': lambda x: np.array(x, dtype=np.intp), 'int': lambda x: int(x[0])}[na_form](na)
+        kw['new_axes'] = na_arg
+    qc = case.get('qconj')
+    if qc is not None:
+        kw['qconj'] = {'int': lambda x: x, 'list': list, 'tuple': tuple, 'ndarray': lambda x: np.array(x)}[case['qconj_form']](qc)
+    given = case.get('given')
+    given_pipes = [None] * len(groups)
+    if given:
+        for gi, g in enumerate(groups):
+            if not given['which'][gi]:
+                continue
             pl = [legs[i] for i in g]
-            if case['given_pipes'] == 'conj':
-                pl = [l.conj() for l in pl]
-            pipes.append(LegPipe(pl, qconj=case['given_pipes_qconj'], sort=case.get('sort', True), bunch=case.get('bunch', True)))
-        kw['pipes'] = pipes
-    res = a.combine_legs(use, **kw)
+            pkw = {'qconj': given['qconj'], 'sort': given['sort'], 'bunch': given['bunch']} if given['kwargs'] or given['via'] == 'LegPipe' else {}
+            if given['via'] == 'make_pipe':
+                src = a.conj(complex_conj=False) if given['rel'] == 'conj' else a
+                if given['axes_by_label']:
+                    lab_src = src.get_leg_labels()
+                    axes_arg = [lab_src[i] for i in g]
+                else:
+                    axes_arg = list(g)
+                p_ = src.make_pipe(axes_arg, **pkw)
+                ref = LegPipe([src.legs[i] for i in g], **pkw)
+                if not pipes_equal(p_, ref) or p_.qconj != ref.qconj or bool(p_.sorted) != bool(ref.sorted) or bool(p_.bunched) != bool(ref.bunched):
+                    probs.append(('make_pipe', 'make_pipe(%r, **%r) is not LegPipe(legs of these axes, **kwargs)' % (axes_arg, pkw)))
+            else:
+                if given['rel'] == 'conj':
+                    pl = [l.conj() for l in pl]
+                p_ = LegPipe(pl, **pkw)
+            given_pipes[gi] = p_
+        pf = case['pipes_form']
+        kw['pipes'] = given_pipes[0] if pf == 'single' else tuple(given_pipes) if pf == 'tuple' else list(given_pipes)
+        given_snap = [None if p_ is None else (int(p_.qconj), [int(l.qconj) for l in p_.legs], p_.charges.copy()) for p_ in given_pipes]
+    na_snap = list(na_arg) if isinstance(na_arg, list) else None
+    try:
+        res = a.combine_legs(cl_arg, **kw)
+    except TypeError as e:
+        if na_form == 'tuple' and any(x < 0 for x in na) and 'item assignment' in str(e):
+            probs.append(('combine:new_axes-tuple-negative', 'combine_legs(new_axes=%r) raises TypeError: %s (new_axes : None | (iterable of) int)' % (na_arg, e)))
+            kw['new_axes'] = list(na)
+            res = a.combine_legs(mk_cl_arg(), **kw)
+        else:
+            raise
+    if na_snap is not None and list(na_arg) != na_snap:
+        out['note_new_axes_mutated'] = True
+    if given:
+        for p_, sn in zip(given_pipes, given_snap):
+            if p_ is not None and (int(p_.qconj) != sn[0] or [int(l.qconj) for l in p_.legs] != sn[1] or not np.array_equal(p_.charges, sn[2])):
+                probs.append(('combine:given-pipe-modified', 'combine_legs modified the LegPipe given as `pipes`'))
     try:
         res.test_sanity()
     except Exception as e:
         probs.append(('combine:sanity', 'combine_legs result fails test_sanity: %s' % e))
+    tags.append('combine.stored_blocks' + ('=0' if a.stored_blocks == 0 else '=1' if a.stored_blocks == 1 else '>1'))
+    if res.stored_blocks < a.stored_blocks:
+        tags.append('combine.result-blocks-merged(several old blocks -> one new)')
     # expected order of the result axes (documented rule), as (is_pipe, [original axes])
     nonc = [i for i in range(rank) if not any(i in g for g in groups)]
-    if case.get('new_axes') is None:
+    if na is None:
         units = sorted([(False, [i]) for i in nonc] + [(True, list(g)) for g in groups], key=lambda u: u[1][0])
     else:
         nr = len(nonc) + len(groups)
         units = [None] * nr
-        for g, na in zip(groups, case['new_axes']):
-            units[na % nr] = (True, list(g))
+        for g, x in zip(groups, na):
+            units[x % nr] = (True, list(g))
         it = iter(nonc)
         units = [u if u is not None else (False, [next(it)]) for u in units]
+    order = [i for u in units for i in u[1]]
+    tags.append('combine_legs.transposition=' + ('not-needed' if order == list(range(rank)) else 'needed'))
 
     def plab(g):
         return '(' + '.'.join(olabels[i] for i in g) + ')'
@@ -314,51 +590,223 @@ def run_array(case):
         probs += [('combine:placement', p) for p in placement_problems(ad, olabels, res_l, 'combine_legs')]
     except Exception:
         probs.append(('combine:placement', 'placement oracle could not be evaluated: ' + traceback.format_exc()[-300:]))
+    if res.dtype != a.dtype:
+        probs.append(('combine:dtype', 'dtype %s -> %s' % (a.dtype, res.dtype)))
     # qconj of the new pipes
-    for g in groups:
+    pipe_axes = [k for k, u in enumerate(units) if u[0]]
+    for gi, g in enumerate(groups):
         lab = plab(g)
-        pipe = res.get_leg(lab)
-        if case.get('given_pipes'):
-            want = case['given_pipes_qconj'] * (-1 if case['given_pipes'] == 'conj' else 1)
-        elif case.get('qconj') is None:
+        pipe = res_l.get_leg(lab)
+        if not isinstance(pipe, LegPipe):
+            probs.append(('combine:pipe-type', 'leg %s of the result is no LegPipe' % lab))
+            continue
+        if given and given['which'][gi]:
+            want = given_pipes[gi].qconj * (-1 if given['rel'] == 'conj' else 1)
+            if given['rel'] == 'conj':
+                tags.append('pipe.given-conjugated-was-conjugated')
+            # the pipe of the result has to be the given one (conjugated as a whole when necessary): same layout
+            if not np.array_equal(pipe.q_map, given_pipes[gi].q_map) or not np.array_equal(pipe.charges, given_pipes[gi].charges):
+                probs.append(('combine:given-pipe-layout', 'pipe %s of the result does not have the layout of the given pipe' % lab))
+        elif qc is None:
             want = legs[g[0]].qconj
-        elif isinstance(case['qconj'], list):
-            want = case['qconj'][groups.index(g)]
+        elif isinstance(qc, list):
+            want = qc[gi]
         else:
-            want = case['qconj']
+            want = qc
         if pipe.qconj != want:
             probs.append(('combine:qconj', 'pipe %s has qconj %d, documented %d' % (lab, pipe.qconj, want)))
         for pl, i in zip(pipe.legs, g):
             if not legs_identical(pl, legs[i]):
-                probs.append(('combine:pipe-legs', 'pipe %s does not contain the legs of the array' % lab))
-    # fusion rule on the dense level: charges of the result legs are consistent with its blocks
-    # ---- split_legs restores the (transposed) original
+                probs.append(('combine:pipe-legs', 'pipe %s does not contain the legs of the array (leg %d: qconj %d / %d)' % (lab, i, pl.qconj, legs[i].qconj)))
+        tags.append('pipe.ties-in-fused-charge=' + ('yes' if pipe.q_map.shape[0] > pipe.block_number else 'no'))
+        if pipe.q_map.shape[0] == 1:
+            tags.append('pipe.single-row(fast-path)')
+        if np.any(pipe.q_map[:, 1] == pipe.q_map[:, 0]):
+            tags.append('pipe.zero-size-block')
+    # ---- split_legs restores the (transposed) original: all pipes at once, default arguments
     sp = res.split_legs()
     try:
         sp.test_sanity()
     except Exception as e:
         probs.append(('split:sanity', 'split_legs result fails test_sanity: %s' % e))
-    order = [i for u in units for i in u[1]]
+    tags.append('split.branch=' + ('no-blocks' if res.stored_blocks == 0 else 'single-block-single-row'
+                                   if res.stored_blocks == 1 and all(res.legs[k].q_map.shape[0] == 1 for k in pipe_axes) else 'worker'))
     exp_sp = np.transpose(ad, order)
     spd = sp.to_ndarray()
     if spd.shape != exp_sp.shape or not np.array_equal(spd, exp_sp):
         probs.append(('split:dense', 'split_legs(combine_legs(a)) differs from a (transposed by %s)' % order))
+    if sp.dtype != a.dtype:
+        probs.append(('split:dtype', 'dtype %s -> %s' % (a.dtype, sp.dtype)))
     if sp.get_leg_labels() != [labels[i] for i in order]:
         probs.append(label_problem('split:labels', 'labels after split_legs(combine_legs(a)) %r, original %r' % (sp.get_leg_labels(), [labels[i] for i in order]),
                                    sp.get_leg_labels(), [labels[i] for i in order]))
     for k, i in enumerate(order):
-        if not legs_identical(sp.legs[k], legs[i]):
+        if k < len(sp.legs) and not legs_identical(sp.legs[k], legs[i]):
             probs.append(('split:legs', 'leg %d after split is not the original leg %d' % (k, i)))
     if np.any(sp.qtotal != a.qtotal):
         probs.append(('split:qtotal', 'qtotal changed'))
+    # ---- split_legs in the requested call form (axes given as int / label / negative / one by one) and with a cutoff
+    sform = case.get('split_form', 'none')
+    cut = {'0': 0.0, 'below-all-entries': 0.5, 'above-some-entries': 25.0}[case.get('cutoff', '0')]
+    if cut > 0:
+        tags.append('split.cutoff>0')
+    rl = res_l.get_leg_labels()
+    nres = res.rank
+    try:
+        ckw = {'cutoff': cut} if cut != 0.0 or case['split_pick'] % 2 else {}
+        if sform == 'none':
+            sp2 = res_l.split_legs(**ckw)
+        elif sform == 'int-list':
+            sp2 = res_l.split_legs(list(pipe_axes), **ckw)
+        elif sform == 'label-list':
+            sp2 = res_l.split_legs([rl[k] for k in reversed(pipe_axes)], **ckw)
+        elif sform == 'negative-list':
+            sp2 = res_l.split_legs([k - nres for k in pipe_axes], **ckw)
+        elif sform == 'tuple':
+            sp2 = res_l.split_legs(tuple(pipe_axes), **ckw)
+        else:      # single-int / single-label / partial: one pipe first (checked against the dense index map), then the rest
+            j = case['split_pick'] % len(pipe_axes)
+            k = pipe_axes[j]
+            if sform == 'single-label':
+                sp1 = res_l.split_legs(rl[k], **ckw)
+            elif sform == 'single-int':
+                sp1 = res_l.split_legs(k if case['split_pick'] % 4 < 2 else k - nres, **ckw)
+            else:
+                sp1 = res_l.split_legs([rl[k]], **ckw)
+            sp1.test_sanity()
+            want1 = split_dense(res_l.to_ndarray(), k, res_l.legs[k])
+            got1 = sp1.to_ndarray()
+            bad = got1.shape != want1.shape or not np.array_equal(got1, want1)
+            if bad and cut > 0 and got1.shape == want1.shape:
+                d = got1 != want1
+                bad = bool(np.any(got1[d] != 0) or np.any(np.abs(want1[d]) > cut))
+            if bad:
+                probs.append(('split-form:dense', 'split_legs(%r) of one pipe does not place the entries along map_incoming_flat' % (rl[k],)))
+            exp_l1 = rl[:k] + [labels[i] for i in units[k][1]] + rl[k + 1:]
+            if sp1.get_leg_labels() != exp_l1:
+                probs.append(('split-form:labels', 'labels after split_legs(%r): %r, expected %r' % (rl[k], sp1.get_leg_labels(), exp_l1)))
+            for kk, l_ in enumerate(sp1.legs):      # untouched legs (other pipes included) stay what they were
+                src_k = kk if kk < k else (None if kk < k + len(units[k][1]) else kk - len(units[k][1]) + 1)
+                if src_k is not None and not pipes_equal(l_, res_l.legs[src_k]):
+                    probs.append(('split-form:other-legs', 'split_legs(%r) changed the untouched leg %d' % (rl[k], src_k)))
+            sp2 = sp1.split_legs(**ckw) if len(pipe_axes) > 1 else sp1
+        sp2.test_sanity()
+        got2 = sp2.to_ndarray()
+        bad = got2.shape != exp_sp.shape or not np.array_equal(got2, exp_sp)
+        if bad and cut > 0 and got2.shape == exp_sp.shape:
+            # documented: split blocks whose largest |entry| does not exceed the cutoff may be dropped (= zero)
+            d = got2 != exp_sp
+            bad = bool(np.any(got2[d] != 0) or np.any(np.abs(exp_sp[d]) > cut))
+        if bad:
+            probs.append(('split-form:dense', 'split_legs(axes form %r, cutoff=%r) of combine_legs(a) differs from a (transposed by %s)' % (sform, cut, order)))
+        if sp2.get_leg_labels() != [labels[i] if u[0] else olabels[i] for u in units for i in u[1]]:
+            probs.append(('split-form:labels', 'labels after split_legs(axes form %r): %r' % (sform, sp2.get_leg_labels())))
+        for k, i in enumerate(order):
+            if k < len(sp2.legs) and not legs_identical(sp2.legs[k], legs[i]):
+                probs.append(('split-form:legs', 'leg %d after split_legs(axes form %r) is not the original leg %d' % (k, sform, i)))
+    except Exception:
+        probs.append(('split-form:raises', 'split_legs(axes form %r, cutoff=%r) raised: %s' % (sform, cut, traceback.format_exc()[-300:])))
+    # ---- a pipe label that is not of the form '(...)': documented warning, labels None, data untouched
+    if case.get('badlabel'):
+        try:
+            rb = res.copy(deep=False)
+            k = pipe_axes[case['split_pick'] % len(pipe_axes)]
+            lb = rb.get_leg_labels()
+            lb[k] = 'x'
+            rb.iset_leg_labels(lb)
+            with warnings.catch_warnings(record=True) as wl:
+                warnings.simplefilter('always')
+                sb = rb.split_legs(k)
+            want = split_dense(res.to_ndarray(), k, res.legs[k])
+            n_in = res.legs[k].nlegs
+            if not np.array_equal(sb.to_ndarray(), want) or sb.get_leg_labels()[k:k + n_in] != [None] * n_in or not wl:
+                probs.append(('split:badlabel', "split_legs of a pipe labelled 'x': data/labels/warning not as documented (labels %r, %d warnings)"
+                              % (sb.get_leg_labels(), len(wl))))
+        except Exception:
+            probs.append(('split:badlabel', "split_legs of a pipe labelled 'x' raised: " + traceback.format_exc()[-300:]))
+    # ---- the result used again: recombine the split tensor with the pipes of the first result (cf. docstring example c3)
+    try:
+        starts = []
+        pos = 0
+        for u in units:
+            starts.append(pos)
+            pos += len(u[1])
+        cl2 = [list(range(starts[k], starts[k] + len(units[k][1]))) for k in pipe_axes]
+        rc = sp.combine_legs(cl2, pipes=[res.legs[k] for k in pipe_axes])
+        rc.test_sanity()
+        tags.append('reuse.pipes-of-result')
+        if not np.array_equal(rc.to_ndarray(), res.to_ndarray()) or not all(pipes_equal(x, y) for x, y in zip(rc.legs, res.legs)):
+            probs.append(('reuse:recombine', 'combine_legs(split_legs(res), pipes=pipes of res) != res'))
+        def anon(ls):      # '?#': # is the index in the tensor combine_legs was applied to, which differs between a and sp
+            return [None if l is None else re.sub(r'[?][0-9]+', '?', l) for l in ls]
+        if anon(rc.get_leg_labels()) != anon(res.get_leg_labels()):
+            probs.append(label_problem('reuse:labels', 'labels after recombination %r, before %r' % (rc.get_leg_labels(), res.get_leg_labels()),
+                                       rc.get_leg_labels(), res.get_leg_labels()))
+        # ... and with the conjugated tensor: the pipes of res are conjugated "if necessary for compatibility"
+        rcc = sp.conj(complex_conj=False).combine_legs(cl2, pipes=[res.legs[k] for k in pipe_axes])
+        rcc.test_sanity()
+        if not np.array_equal(rcc.to_ndarray(), res.to_ndarray()):
+            probs.append(('reuse:recombine-conj', 'combine_legs(conj(split_legs(res)), pipes=pipes of res): entries differ from res'))
+        for k in pipe_axes:
+            pk = rcc.legs[k]
+            if pk.qconj != -res.legs[k].qconj or [l.qconj for l in pk.legs] != [-l.qconj for l in res.legs[k].legs]:
+                probs.append(('reuse:recombine-conj', 'pipe %d of the recombined conjugate has qconj %d, legs %s; pipe of res: %d, %s'
+                              % (k, pk.qconj, [l.qconj for l in pk.legs], res.legs[k].qconj, [l.qconj for l in res.legs[k].legs])))
+            try:
+                pk.test_contractible(res.legs[k])
+            except ValueError:
+                probs.append(('reuse:recombine-conj', 'pipe %d of the recombined conjugate is not contractible with the pipe of res' % k))
+        bc = rcc.split_legs()
+        bc.test_sanity()
+        if not np.array_equal(bc.to_ndarray(), exp_sp) or not all(legs_identical(x, y.conj()) for x, y in zip(bc.legs, sp.legs)):
+            probs.append(('reuse:recombine-conj', 'splitting the recombined conjugate does not give conj(split_legs(res))'))
+    except Exception:
+        probs.append(('reuse:raises', 'recombination with the pipes of the result raised: ' + traceback.format_exc()[-400:]))
+    # ---- projected pipe: the work-around documented in LegPipe.project
+    if case.get('proj') and any(res.legs[k].ind_len > 0 for k in pipe_axes):
+        try:
+            cand = [k for k in pipe_axes if res.legs[k].ind_len > 0]
+            k = cand[case['proj_seed'] % len(cand)]
+            n = res.legs[k].ind_len
+            prng = np.random.default_rng(case['proj_seed'])
+            mask = prng.random(n) < 0.6
+            if not mask.any():
+                mask[prng.integers(n)] = True
+            A = res.copy(deep=True)
+            with warnings.catch_warnings():
+                warnings.simplefilter('ignore')
+                A.iproject(mask, k)
+            A.test_sanity()
+            rd = res.to_ndarray()
+            if isinstance(A.legs[k], LegPipe) or not np.array_equal(A.to_ndarray(), np.compress(mask, rd, axis=k)):
+                probs.append(('proj:project', 'projecting the pipe leg %d: result is %s / entries differ' % (k, type(A.legs[k]).__name__)))
+            if not np.array_equal(A.legs[k].to_qflat(), res.legs[k].to_qflat()[mask]) or A.legs[k].qconj != res.legs[k].qconj:
+                probs.append(('proj:charges', 'projected pipe: charges of the surviving indices changed'))
+            B = npc.zeros(res.legs, dtype=res.dtype, qtotal=res.qtotal, labels=res.get_leg_labels())
+            B[(slice(None),) * k + (mask,)] = A
+            spB = B.split_legs(k)
+            spB.test_sanity()
+            rz = rd.copy()
+            rz[(slice(None),) * k + (~mask,)] = 0
+            if not np.array_equal(spB.to_ndarray(), split_dense(rz, k, res.legs[k])):
+                probs.append(('proj:split', 'splitting the projected pipe through the documented work-around misplaces entries'))
+            tags.append('split_legs.projected-pipe=workaround')
+        except Exception:
+            probs.append(('proj:raises', 'work-around for splitting a projected pipe raised: ' + traceback.format_exc()[-400:]))
     # ---- nested pipes: combine the result once more, split twice
     if res.rank >= 2:
         first = [1, 0] if case.get('nest_rev') else [0, 1]
         try:
             n1 = res_l.combine_legs(first, qconj=case.get('nest_qconj', 1))
             n1.test_sanity()
+            if any(isinstance(l, LegPipe) for l in n1.legs[0].legs):
+                tags.append('nested.pipe-of-pipes')
             probs += [('nested:placement', p) for p in placement_problems(ad, olabels, n1, 'nested combine_legs')]
-            back = res.combine_legs(first, qconj=case.get('nest_qconj', 1)).split_legs().split_legs()
+            back1 = res.combine_legs(first, qconj=case.get('nest_qconj', 1)).split_legs()
+            for k_, r_ in enumerate(first):
+                if not pipes_equal(back1.legs[k_], res.legs[r_]):
+                    probs.append(('nested:inner-pipe', 'splitting the outer pipe does not return the inner leg %d unchanged' % r_))
+            back = back1.split_legs()
             o2 = [i for r in first + list(range(2, res.rank)) for i in units[r][1]]
             if not np.array_equal(back.to_ndarray(), np.transpose(ad, o2)):
                 probs.append(('nested:dense', 'splitting a nested pipe twice does not restore the tensor'))
@@ -373,13 +821,25 @@ def run_array(case):
     # ---- sort_legcharge
     srt = case.get('sort_legs', True)
     bun = case.get('bunch_legs', True)
-    nothing = not any([srt] if isinstance(srt, bool) else srt) and not any([bun] if isinstance(bun, bool) else bun)
+    sperm = case.get('sort_perm')
+    given_perm = None
+    if sperm is not None:      # documented: an entry of `sort` may be a permutation (flat, not mixing the blocks) to apply to that leg
+        srt = list(srt)
+        given_perm = legs[sperm['axis']].perm_flat_from_perm_qind(np.array(sperm['perm_qind'], dtype=np.intp)) \
+            if legs[sperm['axis']].ind_len > 0 else np.zeros(0, dtype=np.intp)
+        srt[sperm['axis']] = given_perm
+    nothing = sperm is None and not any([srt] if isinstance(srt, bool) else srt) and not any([bun] if isinstance(bun, bool) else bun)
     try:
         perm, cp = a.sort_legcharge(sort=srt, bunch=bun)
     except Exception as e:
         perm = cp = None
-        probs.append(('sort_legcharge:nothing-requested' if nothing and isinstance(e, IndexError) else 'sort_legcharge:raises',
-                      'sort_legcharge(sort=%r, bunch=%r) raised %s: %s' % (srt, bun, type(e).__name__, str(e)[:80])))
+        key = 'sort_legcharge:raises'
+        if nothing and isinstance(e, IndexError):
+            key = 'sort_legcharge:nothing-requested'
+        elif sperm is not None and isinstance(e, ValueError) and 'truth value' in str(e):
+            key = 'sort_legcharge:perm-array'
+        probs.append((key, 'sort_legcharge(sort=%r, bunch=%r) raised %s: %s' % (
+            [x.tolist() if isinstance(x, np.ndarray) else x for x in srt] if isinstance(srt, list) else srt, bun, type(e).__name__, str(e)[:80])))
     if cp is not None:
         try:
             cp.test_sanity()
@@ -392,14 +852,28 @@ def run_array(case):
             b_k = bun if isinstance(bun, bool) else bun[k]
             if not np.array_equal(l1.to_qflat(), l0.to_qflat()[perm[k]]) or l1.qconj != l0.qconj:
                 probs.append(('sort_legcharge:qflat', 'charges of leg %d are not permuted like the data' % k))
-            if s_k and not l1.is_sorted():
+            if isinstance(s_k, np.ndarray):
+                if not np.array_equal(perm[k], s_k):
+                    probs.append(('sort_legcharge:given-perm', 'leg %d: given permutation %s, applied %s' % (k, s_k.tolist(), perm[k].tolist())))
+            elif s_k and not l1.is_sorted():
                 probs.append(('sort_legcharge:sorted', 'leg %d not sorted' % k))
             if b_k and not l1.is_bunched():
                 probs.append(('sort_legcharge:bunched', 'leg %d not bunched' % k))
+            if isinstance(l1, LegPipe):
+                probs.append(('sort_legcharge:pipe-left', 'leg %d of the result is still the auxiliary LegPipe' % k))
+            if not isinstance(s_k, np.ndarray) and not s_k and not b_k and not legs_identical(l0, l1):
+                probs.append(('sort_legcharge:untouched', 'leg %d changed although neither sort nor bunch was requested for it' % k))
             if sorted(perm[k].tolist()) != list(range(l0.ind_len)):
                 probs.append(('sort_legcharge:perm', 'perm of leg %d is not a permutation' % k))
             if cp.get_leg_labels() != a.get_leg_labels():
                 probs.append(('sort_legcharge:labels', 'labels changed'))
+        # the result used again: sorting a second time changes nothing
+        try:
+            perm2, cp2 = cp.sort_legcharge(sort=srt if not isinstance(srt, list) else [False if isinstance(x, np.ndarray) else x for x in srt], bunch=bun)
+            if not np.array_equal(cp2.to_ndarray(), cp.to_ndarray()) or any(not np.array_equal(p, np.arange(len(p))) for p in perm2):
+                probs.append(('sort_legcharge:second', 'sort_legcharge of the sorted result is not the identity'))
+        except Exception as e:
+            probs.append(('sort_legcharge:second', 'sort_legcharge of the sorted result raised %s: %s' % (type(e).__name__, str(e)[:80])))
     # ---- as_completely_blocked
     enc, bl = a.as_completely_blocked()
     if not all(l.is_blocked() for l in bl.legs):
@@ -415,9 +889,47 @@ def run_array(case):
     for k in enc:
         if bl.legs[k].qconj != legs[k].qconj:
             probs.append(('blocked:qconj', 'pipe of leg %d changed the direction' % k))
+    if enc:      # the result used again: blocking a second time finds nothing to do
+        enc2, bl2 = bl.as_completely_blocked()
+        if enc2 or not np.array_equal(bl2.to_ndarray(), bl.to_ndarray()):
+            probs.append(('blocked:second', 'as_completely_blocked of a completely blocked tensor encapsulates %r again' % (enc2,)))
+    # ---- invalid calls have to be rejected
+    if case.get('reject'):
+        if rank >= 2:
+            must_raise(probs, 'combine_legs([[0, 1], [1]]) (leg twice)', lambda: a.combine_legs([[0, 1], [1]]))
+            must_raise(probs, 'combine_legs with new_axes == new rank', lambda: a.combine_legs([[0, 1]], new_axes=[rank - 1]))
+            must_raise(probs, 'combine_legs with a pipe of the wrong number of legs',
+                       lambda: a.combine_legs([[0, 1]], pipes=[LegPipe([legs[0]])]))
+            must_raise(probs, 'combine_legs with a pipe of other legs', lambda: a.combine_legs([[0, 1]], pipes=[LegPipe([legs[0], legs[1].extend(1)])]))
+        must_raise(probs, 'combine_legs([[0], [0]]) (leg twice)', lambda: a.combine_legs([[0], [0]]))
+        must_raise(probs, 'combine_legs with too many pipes', lambda: a.combine_legs([[0]], pipes=[None, None]))
+        must_raise(probs, 'combine_legs with too many qconj', lambda: a.combine_legs([[0]], qconj=[1, 1]))
+        must_raise(probs, 'combine_legs with too many new_axes', lambda: a.combine_legs([[0]], new_axes=[0, 1]))
+        must_raise(probs, 'split_legs of the same pipe twice', lambda: res.split_legs([pipe_axes[0], pipe_axes[0] - res.rank]))
+        if len(pipe_axes) < res.rank:
+            k = [k for k in range(res.rank) if k not in pipe_axes][0]
+            if not isinstance(res.legs[k], LegPipe):
+                must_raise(probs, 'split_legs of a leg that is no pipe', lambda: res.split_legs(k))
+        rb = res.copy(deep=False)
+        lb = rb.get_leg_labels()
+        lb[pipe_axes[0]] = '(' + '.'.join('xyzuvw'[:res.legs[pipe_axes[0]].nlegs + 1]) + ')'
+        rb.iset_leg_labels(lb)
+        must_raise(probs, 'split_legs of a pipe whose label has one entry too many', lambda: rb.split_legs(pipe_axes[0]))
+        must_raise(probs, 'sort_legcharge with a `sort` list of the wrong length', lambda: a.sort_legcharge(sort=[True] * (rank + 1)))
+        must_raise(probs, 'sort_legcharge with a `bunch` list of the wrong length', lambda: a.sort_legcharge(bunch=[True] * (rank + 1)))
+        p0 = res.legs[pipe_axes[0]]
+        must_raise(probs, 'map_incoming_flat with a wrong number of indices', lambda: p0.map_incoming_flat([0] * (p0.nlegs + 1)))
+        if p0.ind_len > 0:
+            must_raise(probs, 'map_incoming_flat with an index == ind_len of the leg',
+                       lambda: p0.map_incoming_flat([p0.legs[0].ind_len] + [0] * (p0.nlegs - 1)), (IndexError,))
+    # ---- the input is unchanged by everything above
+    if not np.array_equal(a.to_ndarray(), ad) or a.get_leg_labels() != labels or any(x is not y for x, y in zip(a.legs, in_legs)) \
+            or not all(legs_identical(x, y) for x, y in zip(a.legs, legs)):
+        probs.append(('input-modified', 'combine_legs/split_legs/sort_legcharge/as_completely_blocked modified the tensor they were applied to'))
     out['problems'] = [[k, t] for k, t in probs]
     out['res_blocks'] = int(res.stored_blocks)
     out['n_pipes'] = len(groups)
+    out['tags'] = sorted(set(tags))
     return out
 
 
@@ -428,6 +940,12 @@ def main():
     global OPS_ALL
     payload = json.load(open(sys.argv[1]))
     OPS_ALL = bool(payload.get('ops_all', True))
+    import c06cov_impl
+    if payload['kind'] == 'reflect':
+        json.dump({'res': c06cov_impl.reflect(), 'lines': None}, open(sys.argv[2], 'w'))
+        return
+    cov = c06cov_impl.LineCov()
+    cov.start()
     f = {'pipe': run_pipe, 'leg': run_leg, 'array': run_array}[payload['kind']]
     res = []
     for c in payload['cases']:
@@ -435,7 +953,7 @@ def main():
             res.append(f(c))
         except Exception:
             res.append({'runner_error': traceback.format_exc()[-900:]})
-    json.dump(res, open(sys.argv[2], 'w'))
+    json.dump({'res': res, 'lines': cov.report()}, open(sys.argv[2], 'w'))
 
 
 if __name__ == '__main__':
